@@ -304,7 +304,8 @@ def rule_codec(ctx):
   for e in wr:
     loops_of = [i_ for i_ in w.loop_info.values() if any(x is e.node for x in ast.walk(i_["node"]))]
     its = [as_poly(i_["iter"]).as_atom() for i_ in loops_of if not isinstance(i_["iter"], Seq) and i_["iter"] is not None]
-    over_points = any(a is not None and a.kind == "enumerate" and as_poly(a.args[0]) == points for a in its) or any(a is not None and a.kind == "range" and as_poly(a.args[-1]) == npts for a in its)
+    over_points = any(a is not None and a.kind == "enumerate" and as_poly(a.args[0]) == points for a in its) or any(a is not None and a.kind == "range" and as_poly(a.args[-1]) == npts for a in its) \
+        or any(a is not None and Poly.atom(a) == points for a in its)
     over_mults = any(a is not None and mult_sym is not None and repr(mult_sym) in repr(a) and a.kind in ("enumerate", "range", "map", "zip") for a in its)
     exits = any(bp[0] in ("break", "return") for i_ in loops_of for bp in i_["body_paths"])
     if not (over_points and over_mults) or exits:
@@ -442,8 +443,7 @@ def rule_sanitise(ctx):
              "store dominated by `guess_pk in pks` with (i, guess_pk) enumerating BatchMultiplyG(guesses); every index of pks[guess_pk] is assigned")
   # pks maps PublicPoint(sig.issuer_key_info)
   f = repo.func("ecdsa_sig_checks", "_MapIssuerSigIndexes")
-  src = ast.unparse(f.node)
-  ok = "pks[ec_util.PublicPoint(sig.issuer_key_info)].append(i)" in src and "for i, sig in enumerate(sigs):" in src
+  ok = not issuer_map_problems(repo)
   ctx.record(R, f.where, "pks keyed by the issuer point", ok, "pks[PublicPoint(sig.issuer_key_info)].append(i) for every signature" if ok else "issuer map is not keyed by PublicPoint(sig.issuer_key_info)")
   # sinks: result=True only under `i in issuer_dlogs`, issuer_dlogs = _IssuerDLogs(list(guesses), pks, curve) with the pks of the same sigs
   for b in T.bodies(repo):
@@ -500,3 +500,48 @@ def rule_u2f(ctx):
   if not any(any(f_[0] == "cmp" and f_[1] == "NotEq" for f_ in e.facts) for e in raises):
     probs.append("no `x1 != x2 -> raise` sanity check")
   ctx.record(R, f.where, "guesses.add(x) only after x1 == x2", not probs, "; ".join(sorted(set(probs))) or "both reconstructions agree before the guess is released")
+
+
+def issuer_map_problems(repo):
+  """_MapIssuerSigIndexes by value: the result is a defaultdict(list) D; the only thing ever done to it is D[PublicPoint(sigs[t].issuer_key_info)].append(t)
+  (directly or through a name for that entry), once in every pass of a loop over all signatures; D is returned.  Returns the list of problems."""
+  f = repo.func("ecdsa_sig_checks", "_MapIssuerSigIndexes")
+  w = sym.Walker(repo, f)
+  w.run()
+  sigs = P("param", f.params()[0])
+  probs = []
+  maps = [e for e in w.events if e.kind == "call" and e.data["name"].endswith("defaultdict") and [repr(a) for a in e.data["args"]] == ["glob('list')"]]
+  if len(maps) != 1:
+    return ["index map is not a defaultdict(list)"]
+  D = as_poly(maps[0].data["value"])
+  rets = [t for t in w.terminals if t[0] == "return"]
+  if not rets or not all(isinstance(t[1], Poly) and t[1] == D for t in rets):
+    probs.append("the map returned is not the one that was filled")
+  muts = [e for e in w.events if e.kind == "mutate"]
+  sts = [e for e in w.events if e.kind == "store" and isinstance(e.data.get("base"), Poly) and D.as_atom() in as_poly(e.data["base"]).all_atoms() | {as_poly(e.data["base"]).as_atom()}]
+  if sts:
+    probs.append("index map entries are assigned directly (could be empty lists)")
+  loops = [li for li in w.loop_info.values() if li["visits"]]
+  if len(loops) != 1:
+    probs.append("expected one loop over the signatures")
+    return probs
+  li = loops[0]
+  vis = li["visits"][0]
+  k = as_poly(vis["k"])
+  it = vis["iter"].as_atom() if isinstance(vis["iter"], Poly) else None
+  whole = it is not None and ((it.kind == "enumerate" and as_poly(it.args[0]) == sigs) or Poly.atom(it) == sigs or
+                             (it.kind == "range" and len(it.args) == 1 and as_poly(it.args[0]) == sym.mk("len", sigs)))
+  if not whole:
+    probs.append("the loop does not run over all signatures")
+  key = sym.mk("call", lit("ec_util:PublicPoint"), sym.mk("attr", sym.mk("idx", sigs, k), "issuer_key_info"))
+  for e in muts:
+    if not (e.data["method"] == "append" and isinstance(e.data["recv"], Poly) and e.data["recv"] == sym.mk("idx", D, key) and len(e.data["args"]) == 1
+            and isinstance(e.data["args"][0], Poly) and e.data["args"][0] == k):
+      probs.append("entries are not created exclusively by d[PublicPoint(sig.issuer_key_info)].append(i)")
+  for kind, val, st, since, v2 in li["body_paths"]:
+    if v2 is not vis:
+      continue
+    n_app = sum(1 for i_ in st.trace[since:] if w.events[i_].kind == "mutate")
+    if kind not in ("fall", "continue") or n_app != 1:
+      probs.append("a signature is not filed under its issuer exactly once")
+  return probs
